@@ -72,9 +72,18 @@ package client
 //@   requires p.InitBals != nil ==> allocDecoded(p.InitBals)
 //@   ensures result == nil ==> baseValid(p)
 
+// propParent(c, prop, idx): the registered parent channel a sub-channel or virtual channel proposal refers to (nil for ledger
+// channel proposals); its machine mutex is taken while the proposal is handled.
+//@ pred propParent(c *Client, prop ChannelProposal, idx channel.Index) =
+//@   istype(prop, "*SubChannelProposalMsg") ? regLookup(&c.channels, as(prop, "*SubChannelProposalMsg").Parent) :
+//@   (istype(prop, "*VirtualChannelProposalMsg") && idx < len(as(prop, "*VirtualChannelProposalMsg").Parents) ? regLookup(&c.channels, as(prop, "*VirtualChannelProposalMsg").Parents[idx]) : nil)
+
 //@ func (*Client).proposalParent
 //@   requires c != nil && prop != nil
 //@   ensures err == nil && parent != nil ==> chanWF(parent)
+//@   ensures err == nil ==> parent == propParent(c, prop, partIdx)
+//@   ensures err != nil ==> propParent(c, prop, partIdx) == nil
+//@   ensures err == nil && istype(prop, "*LedgerChannelProposalMsg") ==> parent == nil
 //@   ensures err == nil && istype(prop, "*SubChannelProposalMsg") ==> parent != nil && parent == regLookup(&c.channels, as(prop, "*SubChannelProposalMsg").Parent)
 //@   ensures err == nil && istype(prop, "*VirtualChannelProposalMsg") ==> partIdx < len(as(prop, "*VirtualChannelProposalMsg").Parents) && parent != nil &&
 //@           parent == regLookup(&c.channels, as(prop, "*VirtualChannelProposalMsg").Parents[partIdx])
@@ -143,16 +152,20 @@ package client
 //@ func (*Client).prepareChannelOpening
 //@   requires c != nil && prop != nil && ctx != nil
 //@   modifies ghost("held")
+//@   ensures err == nil && propParent(c, prop, ourIdx) != nil ==> held(&propParent(c, prop, ourIdx).machMtx)
+//@   ensures err != nil ==> forall m *Channel :: held(&m.machMtx) == old(held(&m.machMtx))
 //@   ensures err == nil && istype(prop, "*SubChannelProposalMsg") ==> regLookup(&c.channels, as(prop, "*SubChannelProposalMsg").Parent) != nil
 
 //@ func (*Client).cleanupChannelOpening
-//@   trusted
-//@   requires c != nil
+//@   requires c != nil && c.log != nil && prop != nil && (propParent(c, prop, ourIdx) != nil ==> held(&propParent(c, prop, ourIdx).machMtx))
 //@   modifies ghost("held")
+//@   ensures propParent(c, prop, ourIdx) != nil ==> !held(&propParent(c, prop, ourIdx).machMtx)
 
 //@ func (*Client).handleChannelProposal
 //@   requires c != nil && c.log != nil && wireMapNonNil(c.address) && handler != nil && req != nil && propDecoded(req)
 //@   modifies *
+// the parent's machine mutex taken for the handling is released on every path (a proposal must not leave its parent locked)
+//@   ensures propParent(c, req, 1) != nil && !old(held(&propParent(c, req, 1).machMtx)) ==> !held(&propParent(c, req, 1).machMtx)
 
 // ---------------------------------------------------------------------------
 // Parameter derivation (C08): the channel parameters are a function of the proposal and the accept message only.
